@@ -164,8 +164,19 @@ func (lineParser *LineParser) parseMarkup() (*ParseResult, error) {
 		}
 	}
 
+	text := builder.String()
+	trimmedText := strings.TrimSpace(text)
+	// the attributes must keep designating the same characters once the text is trimmed, and never more than the text
+	leadingSpaces := utf8.RuneCountInString(text) - utf8.RuneCountInString(strings.TrimLeftFunc(text, unicode.IsSpace))
+	trimmedLength := utf8.RuneCountInString(trimmedText)
+	for i := range attributes {
+		start := min(max(attributes[i].Position-leadingSpaces, 0), trimmedLength)
+		end := min(max(attributes[i].Position+attributes[i].Length-leadingSpaces, 0), trimmedLength)
+		attributes[i].Position, attributes[i].Length = start, end-start
+	}
+
 	return &ParseResult{
-		Text:       strings.TrimSpace(builder.String()),
+		Text:       trimmedText,
 		Attributes: attributes,
 	}, nil
 }
